@@ -39,6 +39,8 @@ def run_mutant(m, scale, workers):
         if m["old"] not in src:
             return {"id": m["id"], "prop": m["prop"], "status": "STALE", "detail": "pattern not found (repo changed?)", "wall": 0}
         src = src.replace(m["old"], m["new"], 1)
+        if "pre_import" in m:
+            src = src.replace(m["pre_import"][1], m["pre_import"][2], 1)
         if "post" in m:
             if m["post"][0] not in src:
                 return {"id": m["id"], "prop": m["prop"], "status": "STALE", "detail": "post pattern not found", "wall": 0}
@@ -60,9 +62,15 @@ def run_mutant(m, scale, workers):
         shutil.rmtree(tmp, ignore_errors=True)
 
 
-def sensitivity(props, scale=0.35, workers=4, parallel=4, only=None):
+def sensitivity(props, scale=None, workers=None, parallel=None, only=None):
+    from sim.props import SPECS
+
     ms = [m for m in MUTANTS if (not props or m["prop"] in props) and (not only or m["id"] in only)]
     results = []
+    eng_b = any(SPECS[m["prop"]].engine == "B" for m in ms)
+    scale = scale or float(os.environ.get("VERIF_MUT_SCALE", "0.8" if eng_b else "0.35"))
+    workers = workers or (8 if eng_b else 4)
+    parallel = parallel or (2 if eng_b else 4)
     with ThreadPoolExecutor(parallel) as ex:
         for r in ex.map(lambda m: run_mutant(m, scale, workers), ms):
             print(f"  [{r['status']:7s}] {r['prop']} {r['id']:34s} {r['wall']:6.1f}s  {r['detail'][:200]}", flush=True)
